@@ -48,12 +48,13 @@ type cworld struct {
 	release  chan struct{}
 	sent     map[string][]map[string]interface{} // by request id
 	failSend map[string]bool
+	parkID   string
 }
 
 const grace = 40 * time.Millisecond
 
 func newCWorld() *cworld {
-	w := &cworld{parked: make(chan struct{}, 1), release: make(chan struct{}), sent: map[string][]map[string]interface{}{}, failSend: map[string]bool{}}
+	w := &cworld{parkID: "req-A", parked: make(chan struct{}, 1), release: make(chan struct{}), sent: map[string][]map[string]interface{}{}, failSend: map[string]bool{}}
 	w.raw = mem.NewProvider()
 	rec := hx.NewRecProvider(w.raw)
 	rec.Record = false
@@ -88,11 +89,12 @@ func newCWorld() *cworld {
 		m := map[string]interface{}{}
 		_ = json.Unmarshal(b, &m)
 		id, _ := m["@id"].(string)
+		m["_to"], m["_from"] = theirDID, myDID
 
 		w.mu.Lock()
 		w.sent[id] = append(w.sent[id], m)
 		fail := w.failSend[id]
-		park := w.armed && !w.isParked && w.parkAt == -2 && id == "req-A"
+		park := w.armed && !w.isParked && w.parkAt == -2 && id == w.parkID
 
 		if park {
 			w.isParked = true
